@@ -139,7 +139,9 @@ def main():
                 validation['jobs'] += 1; validation['vectors'] += v['vectors']; validation['valid'] += v['valid']
                 validation['mismatch'] += v['n_mismatch']; validation['native_fail'] += v['n_native_fail']
                 if v['n_mismatch']: framework.append({'job': name, 'why': 'translator validation mismatch (translated C vs real C++): %s' % json.dumps(v['mismatches'][:1])[:800]})
-                if v['n_native_fail'] and not (c['violations'] or c['memsafety']): framework.append({'job': name, 'why': 'the real C++ failed an assertion natively on inputs for which the solver reported no violation (encoding suspect): %s' % json.dumps(v['native_fails'][:1])[:800]})
+                solver_failed = set(x['desc'] for x in r.get('results', []) if x['status'] == 'FAILURE')
+                unexpected = [nf for nf in v['native_fails'] if any(fm not in solver_failed for fm in nf['fails']) or (nf['san'] and not solver_failed)]
+                if unexpected and not (c['violations'] or c['memsafety']): framework.append({'job': name, 'why': 'the real C++ failed natively an assertion that the solver proved for all inputs (encoding suspect): %s' % json.dumps(unexpected[:1])[:800]})
         if len(samples) < 6:
             samples.append({'check': j.desc, 'config': j.ident()['defs'], 'assertions_decided': c['decided'], 'for_this_property': c['decided_tagged'],
                             'witnesses_reached': sorted(c['witness_reached']), 'solver_s': round(r['stats']['solver_s'], 1), 'variables': r['stats']['variables']})
